@@ -26,7 +26,7 @@ Bases == <<
   [fn |-> "pa", t |-> FormatV6(A6a)],
   [fn |-> "pa", t |-> Br(FormatV6(A6b))],
   [fn |-> "pa", t |-> FormatV6(A6c)],
-  [fn |-> "pa", t |-> <<cSP>> \o FormatV4(A4a) \o <<cTAB>>],
+  [fn |-> "pa", t |-> <<cSP, cTAB>> \o FormatV4(A4a) \o <<cTAB, cSP>>],
   [fn |-> "pa", t |-> FormatV6(A6e)],
   [fn |-> "pa", t |-> PathT],
   [fn |-> "pp", t |-> FormatAddrPort("4", A4a, 80)],
